@@ -436,4 +436,94 @@ def metricGroups (cfg : Cfg) (items : List Item) (budget : Int) (ds : List Nat) 
     (if (dropped items).isEmpty then []
      else [{ ns := 0, grp := 0, metric := 0, budget := 0, denom := 0, depth := 0, discN := (dropped items).length, discSum := 0 }])
 
+/-! ### agent: (*Shard).sampleBucket around the sampler (agent_shard_send.go) -/
+
+/-- `remainingBudget` handed to `sampler.Run`: the per-shard budget, capped by MaxUncompressedBucketSize/2, minus the
+    fixed per-metric budgets received from the aggregator, but at least MinSampleBudget -/
+def agentBudget (shardBudget minBudget budgetSum maxHalf : Int) : Int :=
+  if minBudget < (if maxHalf < shardBudget then maxHalf else shardBudget) - budgetSum
+  then (if maxHalf < shardBudget then maxHalf else shardBudget) - budgetSum else minBudget
+
+/-- a row of the bucket: `bypass` = `item.MetricMeta.NoSampleAgent` of the row's OWN metric (such rows never reach the
+    sampler: `keepF(item, bucket.Time, 1)` with the row's initial SF = 1); `item` is what `sampler.Add` would get
+    (accounted metric, whale weight, size estimate) -/
+structure ARow where
+  item : Item
+  bypass : Bool
+  deriving DecidableEq, Repr
+
+def agentBucket (cfg : Cfg) (rows : List ARow) (budget : Int) (ds : List Nat) : List Act :=
+  ((rows.filter (·.bypass)).map (fun r => Act.ev (keepEv r.item))) ++
+  runBucket cfg ((rows.filter (fun r => !r.bypass)).map (·.item)) budget ds
+
+/-! ### aggregator: calcHostMetricBudgets around SampleQuota (aggregator.go) -/
+
+/-- `keepF` of calcHostMetricBudgets: "We encourage good metrics that fully fit in quota" -/
+def hostBudget (originalSize quota : Int) : Int := if originalSize ≤ quota then quota * 2 else quota
+
+/-- budget reported back to the host for one (metric, host) row; nothing for rows whose quota is < 1 -/
+def hostBudgetOf (items : List Item) (e : Ev) : Int :=
+  if e.kept then hostBudget ((items.find? (fun it => it.id == e.id)).map (·.size) |>.getD 0) e.quota else 0
+
+/-! ### size estimates fed to `Add` (transfer.go TLSizeEstimate, bucket.go RowBinarySizeEstimate) -/
+
+/-- number of leading entries up to the last non-zero one (`for i := MaxTags; i != 0; i--`) -/
+def trimLen : List Nat → Nat
+  | [] => 0
+  | x :: xs => if trimLen xs = 0 then (if x = 0 then 0 else 1) else trimLen xs + 1
+
+/-- `l := 1 + len; l += (4 - l%4) % 4` -/
+def stagPad (len : Nat) : Nat := (1 + len) + (4 - (1 + len) % 4) % 4
+
+/-- Key.TLSizeEstimate: `tagsNZ[i] = 1` iff `Tags[i] != 0`, `stagLens[i] = len(STags[i])` -/
+def keyTLSize (tagsNZ : List Nat) (stagLens : List Nat) (tsExtra : Bool) : Nat :=
+  4 + (4 + 4 + 4 * trimLen tagsNZ) +
+  (if trimLen stagLens > 0 then 4 + ((stagLens.take (trimLen stagLens)).map stagPad).sum else 0) +
+  (if tsExtra then 4 else 0)
+
+/-- the fields of a MultiValue that TLSizeEstimate / RowBinarySizeEstimate look at -/
+structure ValDesc where
+  empty : Bool := false        -- Empty(): Value.Count() <= 0
+  maxHostI : Bool := false     -- MaxHostTag.I != 0
+  maxHostS : Nat := 0          -- len(MaxHostTag.S)
+  minEqMax : Bool := true      -- MinHostTag == MaxHostTag
+  minHostI : Bool := false
+  minHostS : Nat := 0
+  mcEqMax : Bool := true       -- MaxCounterHostTag == MaxHostTag
+  mcHostI : Bool := false
+  mcHostS : Nat := 0
+  hllItems : Nat := 0          -- HLL.ItemsCount()
+  hasDigest : Bool := false    -- ValueTDigest != nil
+  centroids : Nat := 0
+  valueSet : Bool := false
+  minNonZero : Bool := false   -- ValueMin != 0
+  singleTL : Bool := true      -- Value.singleValueTL()
+  deriving DecidableEq, Repr
+
+def hostSz (isI : Bool) (sLen : Nat) : Nat := if isI then 4 else sLen
+
+def hllEst (n : Nat) : Nat := 1 + 3 + 4 * n
+
+/-- MultiValue.TLSizeEstimate -/
+def valueTLSize (v : ValDesc) : Nat :=
+  8 + hostSz v.maxHostI v.maxHostS +
+  (if v.minEqMax then 0 else hostSz v.minHostI v.minHostS) +
+  (if v.mcEqMax then 0 else hostSz v.mcHostI v.mcHostS) +
+  (if v.hllItems ≠ 0 then hllEst v.hllItems else 0) +
+  (if v.hasDigest then 4 + 8 * v.centroids else 0) +
+  (if v.valueSet then (if v.minNonZero then 8 else 0) + (if v.singleTL then 0 else 24) else 0)
+
+/-- MultiItem.TLSizeEstimate: tail + string top entries `(len(k.S), value)` -/
+def itemTLSize (tail : ValDesc) (tops : List (Nat × ValDesc)) : Nat :=
+  valueTLSize tail + (tops.map (fun t => 4 + t.1 + 3 + valueTLSize t.2)).sum
+
+/-- MultiValue.RowBinarySizeEstimate -/
+def valueRowSize (v : ValDesc) : Nat :=
+  if v.empty then 0 else 5 * 8 + 1 + 1 + 10 + hllEst v.hllItems + (if v.hasDigest then 8 * v.centroids else 0)
+
+/-- MultiItem.RowBinarySizeEstimate (oldTagNumber = 16) -/
+def itemRowSize (stagLens : List Nat) (tail : ValDesc) (tops : List (Nat × ValDesc)) : Nat :=
+  (4 + 4 + 16 * 4 + stagLens.sum) + valueRowSize tail +
+  (tops.map (fun t => (4 + 4 + 16 * 4 + stagLens.sum) + 4 + t.1 + valueRowSize t.2)).sum
+
 end SH.Sampler
